@@ -257,7 +257,7 @@ class C14(common.Prop):
             "Pose pass-through; a frame-count stream (exact .5 quotients, counts up to 1500) and a malformed stream (1 frame, "
             "fps 0, negative/zero target, 0 or 1 new frames, no people/points); np.linspace grids n <= 64. Compared: frame count, "
             "fps, mask exactly (conf within 1e-9 of 0 either way), values and confidence within 1e-9*max(1,|track|). "
-            "non-trivial = accepted by the implementation with >= 1 observed track; distinct by content hash")
+            "non-trivial = accepted by the implementation with >= 1 observed track; distinct by content hash " "20% of the non-affine cases hold whole-number confidences in an integer array (presence flags).")
     TRUSTED = ["Coq 8.16.1 kernel; PrimFloat/Uint63 primitives (frame count, binary64 run)", "harness/translate_c14.py (fail-closed ast translator)",
                "extraction: ExtrOcamlBasic, ExtrOCamlFloats, ExtrOCamlInt63; runner/driver.ml",
                "harness/c14.py comparison tolerance 1e-9 and the rational-time reference of the oracle"]
